@@ -44,6 +44,8 @@ fam("lin2skew", 2, 2, _lin([[1.0, 4.0], [-2.0, 1.0]]), [0.25, 0.75])
 fam("lin3", 3, 3, _lin([[2.0, 1.0, 0.0], [1.0, 3.0, 1.0], [0.0, 1.0, 4.0]]), [0.5, -1.0, 0.25])
 fam("lin_tall", 2, 3, _lin([[1.0, 0.0], [0.0, 1.0], [1.0, 1.0]]), [0.5, 0.25])                      # consistent, over-determined
 fam("lin_tall_inc", 2, 3, _lin([[1.0, 0.0], [0.0, 1.0], [1.0, 1.0]]), [0.5, 0.25], [0.5, 0.25, 2.0])   # inconsistent
+# two readings of the same quantity with different targets: cannot be matched; the least-squares point is k = 2
+fam("same_twice", 1, 2, lambda k: [k[0], k[0]], [2.0], [1.0, 3.0])
 fam("lin_wide", 3, 2, _lin([[1.0, 2.0, 0.0], [0.0, 1.0, 1.0]]), [0.5, 0.25, -0.5])                  # under-determined
 fam("lin_rankdef", 2, 2, _lin([[1.0, 2.0], [2.0, 4.0]]), [0.5, 0.25])                                # rank 1, consistent
 fam("lin_rankdef_inc", 2, 2, _lin([[1.0, 2.0], [2.0, 4.0]]), [0.5, 0.25], [1.0, 3.0])                # rank 1, inconsistent
